@@ -174,6 +174,49 @@ def corr_sweep_c12(seed=0, tier="quick", cov=None):
                                 "detail": {"set_correlation": list(args), "expected": "ValueError", "got": "accepted"}})
             except ValueError:
                 pass
+    # the configured correlations: simulation.fundamentalCorrelations.pairwise of the runner's settings must arrive in the table under
+    # the ids of the named markets, whichever way round the pair is named, and a pair naming a market without volatility is refused
+    from pams.runners import SequentialRunner
+    names = ["A", "B", "C", "D"]
+    for trial in range(12 if tier == "quick" else 60):
+        pairs, ref = [], {}
+        for _ in range(rnd.randint(1, 4)):
+            a, b = rnd.sample(names, 2)
+            c = rnd.choice([-0.5, -0.25, 0.25, 0.5, 0.75])
+            pairs.append([a, b, c])
+            ref[frozenset((a, b))] = c
+        cfg = {"simulation": {"markets": names, "agents": [], "sessions": [{"sessionName": 0, "iterationSteps": 1, "withOrderPlacement": False,
+                                                                              "withOrderExecution": False, "withPrint": False}],
+                              "fundamentalCorrelations": {"pairwise": pairs}}}
+        for k, nm in enumerate(names):
+            cfg[nm] = {"class": "Market", "tickSize": 1.0, "marketPrice": 100.0 + k, "fundamentalVolatility": 0.01}
+        n += 1
+        try:
+            r = SequentialRunner(settings=cfg, prng=random.Random(trial))
+            r._setup()
+            id2name = {m.market_id: m.name for m in r.simulator.markets}
+            got = {}
+            for (x, y), v in r.simulator.fundamentals.correlation.items():
+                got[frozenset((id2name[x], id2name[y]))] = v
+            bad = got != ref or len(got) != len(r.simulator.fundamentals.correlation)
+        except Exception as e:  # noqa
+            got, bad = {"raised": repr(e)[:120]}, True
+        if bad and len(out) < 3:
+            out.append({"rule": "log-returns-have-configured-volatility-and-correlation", "at": n,
+                        "detail": {"pairwise": pairs, "table": [[sorted(k), v] for k, v in got.items()] if isinstance(got, dict) and "raised" not in got else got,
+                                   "expected": [[sorted(k), v] for k, v in ref.items()], "source": "SequentialRunner._setup with fundamentalCorrelations"}})
+    cfg = {"simulation": {"markets": ["A", "B"], "agents": [], "sessions": [{"sessionName": 0, "iterationSteps": 1, "withOrderPlacement": False,
+                                                                               "withOrderExecution": False, "withPrint": False}],
+                          "fundamentalCorrelations": {"pairwise": [["A", "B", 0.5]]}},
+           "A": {"class": "Market", "tickSize": 1.0, "marketPrice": 100.0, "fundamentalVolatility": 0.01},
+           "B": {"class": "Market", "tickSize": 1.0, "marketPrice": 100.0}}
+    try:
+        SequentialRunner(settings=cfg, prng=random.Random(0))._setup()
+        if len(out) < 3:
+            out.append({"rule": "log-returns-have-configured-volatility-and-correlation", "at": n,
+                        "detail": {"case": "correlation configured for a market without volatility", "expected": "ValueError", "got": "accepted"}})
+    except ValueError:
+        pass
     if cov is not None:
         cov["correlation_table_ops"] = n
     return out
